@@ -63,6 +63,7 @@ type Link struct {
 	lens     []int
 	consumed int
 	nread    int // released units (frames) completely read by the other end
+	waiting  int // readers parked in read with nothing available
 	paused   bool
 	closed   bool
 	// the stream as a reader sees it: complete frames, in order; wbuf = bytes after the last complete frame
@@ -261,7 +262,10 @@ func (l *Link) read(p []byte) (int, error) {
 	l.mu.Lock()
 	defer l.mu.Unlock()
 	for len(l.avail) == 0 && !l.closed {
+		l.waiting++
+		l.net.notify()
 		l.cond.Wait()
+		l.waiting--
 	}
 	if len(l.avail) == 0 {
 		return 0, io.EOF
@@ -295,6 +299,15 @@ func (l *Link) Closed() bool { l.mu.Lock(); defer l.mu.Unlock(); return l.closed
 
 // Read reports how many frames the other end has completely read.
 func (l *Link) Read() int { l.mu.Lock(); defer l.mu.Unlock(); return l.nread }
+
+// Idle reports that the other end is parked in Read at a frame boundary with nothing left to read and
+// nothing held back by the valve: whatever it does with a frame between two Read calls (an endpoint
+// dispatches it) has been done for every frame written so far.
+func (l *Link) Idle() bool {
+	l.mu.Lock()
+	defer l.mu.Unlock()
+	return l.waiting > 0 && len(l.avail) == 0 && len(l.pbuf) == 0 && l.consumed == 0 && len(l.blocked) == 0
+}
 
 // Writes reports how many Write calls went through (were not refused and are not blocked).
 func (l *Link) Writes() int { l.mu.Lock(); defer l.mu.Unlock(); return l.nwrite }
